@@ -145,7 +145,7 @@ class Program(object):
 CMDS = ['fail', 'succeed', 'noop']
 
 
-def gen_direct(rnd, n=None, partial_joins=True, p_sub=0.0, p_items=0.0, p_retry=0.0, p_policy=0.0, p_join=0.9, p_join1=0.2, p_err=0.3, p_guard=0.3, p_cmd=0.15, p_comp=0.2, allow_cmd=True, max_out=2):
+def gen_direct(rnd, n=None, partial_joins=True, p_publish=0.0, p_sub=0.0, p_items=0.0, p_retry=0.0, p_policy=0.0, p_join=0.9, p_join1=0.2, p_err=0.3, p_guard=0.3, p_cmd=0.15, p_comp=0.2, allow_cmd=True, max_out=2):
     """Random direct DAG: edges go forward in the task order; a task with >= 2 inbound edges is a
     join (all / one / N) with probability p_join (otherwise it runs once per trigger)."""
     P = Program()
@@ -240,6 +240,10 @@ def gen_direct(rnd, n=None, partial_joins=True, p_sub=0.0, p_items=0.0, p_retry=
             d['retry'] = {'count': c, 'delay': rnd.choice([0, 1])}
             P.oracle[t] = [rnd.choice(['ok', 'err']) for _ in range(c + 1)]
             P.flags['retry'] = True
+        if rnd.random() < p_publish and d.get('kind', 'action') == 'action' and d.get('with_items') is None:
+            # each task publishes its own variable (no two publishers of one variable: conflict-free class)
+            d['publish'] = {'v_%s' % t: '<% task().result %>', 'k_%s' % t: 'lit:%s' % t}
+            P.flags['publish'] = True
         if rnd.random() < p_policy:
             pol = rnd.choice(['wait-before', 'wait-after', 'timeout', 'timeout', 'fail-on'])
             if pol == 'fail-on':
